@@ -55,7 +55,7 @@ def run(ctx: Ctx) -> int:
         "programs = family D over TypeEnum / OnCompletion / ApplicationID checks (every named and numeric spelling incl. out-of-range constants, ==/!=, both operand "
         "orders, condition trees, pairs of checks, all shapes, layouts, repo corpus); the (TypeEnum, OnCompletion, ApplicationID) valuation of the governed transaction "
         "is a solver variable; non-trivial = a kind set smaller than the universe was validated on a feasible accepting path",
-        [TxnType._get_asserted_transaction_types, D._get_asserted, D.run_analysis, teal_enums.transaction_type_to_tealer_type, teal_enums.oncompletion_to_tealer_type],
+        [lambda: TxnType._get_asserted_transaction_types, lambda: D._get_asserted, lambda: D.run_analysis, lambda: teal_enums.transaction_type_to_tealer_type, lambda: teal_enums.oncompletion_to_tealer_type],
         {"unroll": 2, "call_depth": 3, "constants": "K: all uint64 constants x all well-formed valuations; S: enumeration values and 0/7/6",
          "crosshair_timeout_s": 60 if ctx.quick else 150},
         ["well-formed transactions: fields of another transaction type are zero; TypeEnum in 1..6",
